@@ -10,8 +10,8 @@ import (
 
 	"github.com/meshplus/bitxhub-kit/types"
 	"github.com/meshplus/bitxhub-model/pb"
-	ethledger "github.com/meshplus/eth-kit/ledger"
 	"github.com/meshplus/bitxhub/verifhook"
+	ethledger "github.com/meshplus/eth-kit/ledger"
 	"pgregory.net/rapid"
 
 	"verifharness/sim"
